@@ -52,9 +52,9 @@ let event_sx x = match Sx.list x with
   | _ -> failwith ("event: " ^ Sx.to_string x)
 
 let sx_facts (f : mfacts) =
-  Sx.L [sx_bytes f.mf_begin; sx_opt sx_bytes f.mf_sender; sx_opt sx_bytes f.mf_target; sx_fres sx_z f.mf_stime; sx_verdict f.mf_valid]
+  Sx.L [sx_bytes f.mf_begin; sx_opt sx_bytes f.mf_sender; sx_opt sx_bytes f.mf_target; sx_fres sx_z f.mf_stime; sx_verdict f.mf_valid; sx_opt sx_bytes f.mf_id]
 let facts_sx x = match Sx.list x with
-  | [b; s; t; st; v] -> { mf_begin = bytes_sx b; mf_sender = opt_sx bytes_sx s; mf_target = opt_sx bytes_sx t; mf_stime = fres_sx z_sx st; mf_valid = verdict_sx v }
+  | [b; s; t; st; v; id] -> { mf_begin = bytes_sx b; mf_sender = opt_sx bytes_sx s; mf_target = opt_sx bytes_sx t; mf_stime = fres_sx z_sx st; mf_valid = verdict_sx v; mf_id = opt_sx bytes_sx id }
   | _ -> failwith "facts"
 
 let sx_cb = function
